@@ -341,6 +341,24 @@ def _gen_failing_step(rng, sim, named):
     v = sim.version
     if rng.random() < PROBE_RATE:
         return _gen_probe_step(rng, sim, named)
+    if v == "gfa1" and named and rng.random() < 0.25:
+        # a link which takes the place of the placeholder link of a path (the path arrived first), and
+        # which carries an identifier that is in use
+        steps_open = []
+        for x in sim.recs:
+            if x.rt == "P":
+                for stp in T.path_steps(x):
+                    if not any(T.link_supports(l, stp) for l in sim.recs if l.rt == "L"):
+                        steps_open.append(stp)
+        if steps_open:
+            a, ao, b, bo, ov = rng.choice(steps_open)
+            n, r = rng.choice(named)
+            if rng.random() < 0.5:
+                # (written the other way round: the complement of the step)
+                a, ao, b, bo = b, S.inv(bo), a, S.inv(ao)
+                ov = S.cigar_complement(ov) if ov != "*" else ov
+            return {"op": "add", "line": "L\t%s\t%s\t%s\t%s\t%s\tID:Z:%s" % (a, ao, b, bo, ov if rng.random() < 0.7 else "*", n),
+                    "as": rng.choice(["str", "line"]), "expect": "model"}
     if k < 0.35 and len(named) >= 1:
         # add a record whose identifier is in use (every ordered pair of record types)
         n, r = rng.choice(named)
